@@ -502,19 +502,3 @@ theorem rnd_isRounding : IsRounding rnd where
 
 end BB
 
-#print axioms BB.rnd_zero
-#print axioms BB.rnd_neg
-#print axioms BB.rnd_mono
-#print axioms BB.rnd_dyadic
-#print axioms BB.rnd_dyadic_le
-#print axioms BB.rnd_intCast_of_lt
-#print axioms BB.rnd_natCast_of_lt
-#print axioms BB.rnd_idem
-#print axioms BB.rnd_nonneg
-#print axioms BB.rnd_le_one
-#print axioms BB.rnd_one
-#print axioms BB.rnd_half
-#print axioms BB.rnd_relErr
-#print axioms BB.rndPos_eq
-#print axioms BB.rnd_of_pos
-#print axioms BB.rnd_isRounding
